@@ -19,6 +19,7 @@ CmdsABX == {"A", "B", "X"}
 CmdsAX == {"A", "X"}
 RefusedDef == {"X"}
 CmdsAC == {"A", "C"}
+CmdsRQ == {"R", "Q"}
 CmdsCR == {"C", "R"}
 CmdsAR == {"A", "R"}
 CmdsABR == {"A", "B", "R"}
